@@ -81,6 +81,7 @@ type caseSpec struct {
 	failKind string // code | eof | badid | trunc
 	badCreds string // how the broker reports bad credentials: code | challenge
 	refSrv   string // xdg | stdlib (SCRAM reference server)
+	impostor bool   // stdlib SCRAM server that accepts any proof and forges the server signature
 	wrongCreds bool // the credential table says the pair is wrong (after normalisation)
 	addr     string // address to dial ("" = broker1:9092); a non-numeric port makes splitHostPortNumber fail
 }
@@ -182,6 +183,8 @@ func buildMech(c caseSpec) (sasl.Mechanism, error) {
 
 var apiRanges = [][3]int16{{18, 0, 2}, {3, 1, 1}, {10, 0, 0}, {2, 1, 1}}
 
+func be32c(v uint32) []byte { return []byte{byte(v >> 24), byte(v >> 16), byte(v >> 8), byte(v)} }
+
 func rangeStr(r *[2]int16) string {
 	if r == nil {
 		return "none"
@@ -220,6 +223,12 @@ func serve(conn net.Conn, c caseSpec, lg *connLog) {
 			}
 			conn.Write(good[:len(good)/2+2])
 			return true
+		case "neglen":
+			// a malformed answer: the length prefix of the frame is negative (raw exchange: the whole "frame" is
+			// that prefix; framed: the size field of the response)
+			lg.addEnv("IOERR")
+			conn.Write([]byte{0xff, 0xff, 0xff, 0xff})
+			return false
 		case "badid":
 			lg.addEnv("IOERR")
 			b := append([]byte(nil), good...)
@@ -246,6 +255,14 @@ func serve(conn net.Conn, c caseSpec, lg *connLog) {
 			if c.failKind == "code" && framed {
 				lg.addEnv("R:58:-:0")
 				conn.Write(reply(58, nil))
+				return false
+			}
+			if c.failKind == "neglen" && framed {
+				// a 4-byte negative size is not even a complete frame header: for framed answers use the wrong-id frame
+				lg.addEnv("IOERR")
+				b := reply(0, []byte{1, 2, 3, 4, 5, 6})
+				b[4+3] ^= 0x55
+				conn.Write(b)
 				return false
 			}
 			if c.failKind != "code" && !(c.failKind == "badid" && !framed) {
@@ -286,7 +303,7 @@ func serve(conn net.Conn, c caseSpec, lg *connLog) {
 		if err != nil {
 			var ne net.Error
 			if errors.As(err, &ne) && ne.Timeout() {
-				lg.addEnv("EOF")
+				lg.addEnv("IDLE") // an EOF for the client, caused by the harness giving up on a silent peer (a hang, or a very slow machine)
 				idleExit = true
 			}
 			return
@@ -327,6 +344,13 @@ func serve(conn net.Conn, c caseSpec, lg *connLog) {
 			b, err := muxfake.Encode(0, h.Corr, res)
 			if err != nil {
 				panic(err)
+			}
+			if c.failAt == "versions" && c.failKind == "negcount" {
+				// a malformed ApiVersions answer: the array of api keys announces a negative number of entries
+				lg.addEnv("IOERR")
+				body := append(be32c(uint32(h.Corr)), 0, 0, 0xff, 0xff, 0xff, 0xfe) // -2: -1 would be a null array, which is well formed
+				conn.Write(append(be32c(uint32(len(body))), body...))
+				continue
 			}
 			if c.failAt == "versions" && c.failKind != "code" {
 				if fail(b, 4, true) {
@@ -404,6 +428,9 @@ func errClass(err error) string {
 	if err == nil {
 		return "ok"
 	}
+	if strings.HasPrefix(err.Error(), "panic: ") {
+		return "panic"
+	}
 	var ke kafka.Error
 	if errors.As(err, &ke) {
 		return fmt.Sprintf("err:kafka:%d", int(ke))
@@ -451,7 +478,7 @@ func runCase(c caseSpec) (res caseResult, skip string) {
 			// a failed dial closes its connection before it returns: the broker's read ends at once
 			select {
 			case <-lg.done:
-			case <-time.After(300 * time.Millisecond):
+			case <-time.After(1200 * time.Millisecond):
 			}
 		}
 		return lg.isClosed()
@@ -459,7 +486,17 @@ func runCase(c caseSpec) (res caseResult, skip string) {
 
 	if c.path == "dialer" {
 		d := &kafka.Dialer{DialFunc: dial, SASLMechanism: mech, ClientID: "c18"}
-		conn, err := d.DialContext(ctx, "tcp", c.address())
+		var conn *kafka.Conn
+		var err error
+		func() {
+			// a malformed answer must make the dial FAIL, not crash the caller
+			defer func() {
+				if p := recover(); p != nil {
+					err = fmt.Errorf("panic: %v", p)
+				}
+			}()
+			conn, err = d.DialContext(ctx, "tcp", c.address())
+		}()
 		res.final = errClass(err)
 		if err == nil {
 			conn.SetDeadline(time.Now().Add(10 * time.Second))
@@ -536,6 +573,10 @@ func emitCase(c caseSpec, res caseResult) {
 		if c.failAt == "" && c.mechFail < 0 && c.addr == "" && c.user == c.srvUser && c.pass == c.srvPass && !(c.hs != nil && c.hs[1] < 0 && c.path == "dialer") && !c.wrongCreds {
 			expect = "ok"
 		}
+		if c.impostor && c.failAt == "" && c.mechFail < 0 && c.addr == "" {
+			// mutual authentication: a forged server signature must make the dial fail
+			expect = "err"
+		}
 		fmt.Fprintf(out, "auth %s %d %s %s\t%s;%s;%d\n", path, sasl, env, expect, journal, res.results[i], cl)
 	}
 }
@@ -565,9 +606,24 @@ func main() {
 				cases = append(cases, caseSpec{path: path, hs: hs, au: au, mech: m, user: "alice", pass: "s3cret", srvUser: "alice", srvPass: "s3cret",
 					steps: 1 + r.Intn(4), mechFail: -1, refSrv: "xdg"})
 			}
+			// a broker that claims success without knowing the password (forged `v=`): SCRAM clients must refuse
+			if hs != nil && hs[0] == 0 && hs[1] >= 0 {
+				for _, m := range []string{"scram256", "scram512"} {
+					cases = append(cases, caseSpec{path: path, hs: hs, au: au, mech: m, user: "alice", pass: "s3cret", srvUser: "alice", srvPass: "s3cret",
+						mechFail: -1, refSrv: "stdlib", impostor: true})
+				}
+			}
 			// failure at every step
 			for _, at := range []string{"versions", "handshake", "auth1", "auth2", "auth3"} {
-				for _, kind := range []string{"code", "eof", "badid", "trunc"} {
+				for _, kind := range []string{"code", "eof", "badid", "trunc", "neglen"} {
+					if kind == "neglen" && !strings.HasPrefix(at, "auth") {
+						// the protocol package (Transport path) reads every negative array length as a null array — codec policy,
+						// not an authentication failure — so the malformed count is placed on the Dialer path only
+						kind = "negcount"
+						if at != "versions" || path != "dialer" {
+							continue
+						}
+					}
 					m := []string{"plain", "scram256", "steps"}[r.Intn(3)]
 					if at == "auth2" && m == "plain" {
 						m = "scram512"
